@@ -35,7 +35,7 @@ Lookup(v, path, fl) ==
             ELSE [st |-> "err", v |-> Null]
 
 \* the views of a located value
-Views(v) == [text |-> Render(v), iface |-> IfaceRender(v), kind |-> v.k, len |-> Len(v.e), listing |-> Listing(v)]
+Views(v) == [text |-> Render(v), iface |-> IfaceRender(v), ifacenum |-> IfaceNumRender(v), kind |-> v.k, len |-> Len(v.e), listing |-> Listing(v)]
 
 \* ---- Preorder events ----
 RECURSIVE Events(_)
@@ -43,6 +43,7 @@ Events(v) ==
   CASE v.k = "num"  -> <<"num:" \o ToString(v.n)>>
     [] v.k = "str"  -> <<"str:" \o v.s>>
     [] v.k = "null" -> <<"null">>
+    [] v.k = "lit"  -> <<(IF LitIsBool(v.s) THEN "bool:" ELSE "float:") \o v.s>>     \* a number text with a fraction or an exponent is a float event
     [] v.k = "arr"  -> LET RECURSIVE F(_)
                            F(i) == IF i > Len(v.e) THEN <<>> ELSE Events(v.e[i]) \o F(i + 1)
                        IN <<"[">> \o F(1) \o <<"]">>
